@@ -1520,3 +1520,283 @@ Section Terminates.
       apply header_abort_progress in Hd. exact Hd.
   Qed.
 End Terminates.
+
+Section Terminates2.
+  Notation SE := (senv unit).
+  Notation SI := (serial_iface unit null_recv).
+  Variable ce : bool.
+
+  Definition avail (s : mbs SE) : nat := availe (mb_env SE s).
+  Definition msafe {A} (fuel : nat) (m : M (mbs SE) A) : Prop :=
+    forall s r s', (avail s < fuel)%nat -> m s = (r, s') -> nohang r /\ (avail s' <= avail s)%nat.
+
+  Lemma msafe_ret {A} fuel (a : A) : msafe fuel (mret a).
+  Proof. intros s r s' _ H. injection H as <- <-. split; [exact I|apply le_n]. Qed.
+  Lemma msafe_raise {A} fuel x : x <> XHang -> msafe fuel (@mraise (mbs SE) A x).
+  Proof. intros Hx s r s' _ H. injection H as <- <-. split; [destruct x; simpl; auto|apply le_n]. Qed.
+  Lemma msafe_bind {A B} fuel (m : M (mbs SE) A) (f : A -> M (mbs SE) B) :
+    msafe fuel m -> (forall a, msafe fuel (f a)) -> msafe fuel (mbind m f).
+  Proof.
+    intros Hm Hf s r s' Hs H. unfold mbind in H. destruct (m s) as [[a|x] s1] eqn:E.
+    - destruct (Hm _ _ _ Hs E) as [_ L1]. destruct (Hf a s1 r s' ltac:(lia) H) as [N L2]. split; [exact N|lia].
+    - injection H as <- <-. destruct (Hm _ _ _ Hs E) as [N L]. split; [destruct x; simpl in *; auto|exact L].
+  Qed.
+  Lemma msafe_lift {A} fuel (m : M SE A) : esafe m -> msafe fuel (lift SE m).
+  Proof.
+    intros Hm s r s' _ H. unfold lift in H. destruct (m (mb_env SE s)) as [r0 e1] eqn:E. injection H as <- <-.
+    apply Hm in E. exact E.
+  Qed.
+  Lemma msafe_put fuel st : msafe fuel (put_status SE st).
+  Proof. intros s r s' _ H. injection H as <- <-. split; [exact I|apply le_n]. Qed.
+  Lemma msafe_get fuel : msafe fuel (get_status SE).
+  Proof. intros s r s' _ H. injection H as <- <-. split; [exact I|apply le_n]. Qed.
+  Lemma msafe_finish fuel rs : msafe fuel (finish_cmd SE ce rs).
+  Proof.
+    intros s r s' _ H. unfold finish_cmd in H. destruct (ce && negb (r_status rs =? SC_SUCCESS)); injection H as <- <-; (split; [exact I|apply le_n]).
+  Qed.
+
+  Lemma write_frame_safe t b : esafe (f <- mlift (create_frame t b);; s_send_frame unit null_recv f true).
+  Proof.
+    apply esafe_bind.
+    - apply esafe_lift. unfold create_frame. destruct (65536 <=? nlen b); exact I.
+    - intros f. unfold s_send_frame. apply esafe_bind; [apply swrite_safe|]. intros _.
+      apply esafe_bind; [apply header_safe|]. intros; apply esafe_ret.
+  Qed.
+  Lemma i_write_command_safe b : esafe (i_write_command SI b).
+  Proof. apply write_frame_safe. Qed.
+  Lemma i_write_data_safe ab b : esafe (i_write_data SI ab b).
+  Proof. apply write_frame_safe. Qed.
+  Lemma i_read_safe : esafe (i_read SI).
+  Proof. apply s_read_safe. Qed.
+
+  Lemma process_cmd_safe fuel p : msafe fuel (process_cmd SE SI ce p).
+  Proof.
+    intros s r s' Hs H. unfold process_cmd in H.
+    destruct (lift SE (b <- mlift (pkt_bytes p);; i_write_command SI b;;; i_read SI) s) as [r0 s1] eqn:L.
+    assert (HL : nohang r0 /\ (avail s1 <= avail s)%nat).
+    { eapply (msafe_lift fuel); [|exact Hs|exact L].
+      apply esafe_bind; [apply esafe_lift; unfold pkt_bytes; destruct p as [[? ?] ?]; destruct (_ || _); exact I|].
+      intros b. apply esafe_bind; [apply i_write_command_safe|]. intros _. apply i_read_safe. }
+    destruct HL as [N0 L0].
+    destruct r0 as [[d|rs]|x].
+    - injection H as <- <-. split; [exact I|exact L0].
+    - eapply (msafe_finish fuel) in H; [|lia]. destruct H; split; [assumption|lia].
+    - destruct x; try (injection H as <- <-; split; [first [exact I|exact N0]|exact L0]).
+      eapply (msafe_finish fuel) in H; [|unfold avail in *; cbn [set_status mb_env]; lia].
+      destruct H as [N L1]. split; [exact N|]. unfold avail in *. cbn [set_status mb_env] in L1. lia.
+  Qed.
+
+  Lemma read_data_loop_safe tag : forall fuel acc s r s', (avail s < fuel)%nat ->
+    read_data_loop SE SI tag fuel acc s = (r, s') -> nohang r /\ (avail s' <= avail s)%nat.
+  Proof.
+    induction fuel as [|f IH]; intros acc s r s' Hs H; [lia|].
+    cbn [read_data_loop] in H.
+    assert (Hh : forall v st, (avail st < f)%nat \/ True -> (avail st < f)%nat ->
+      (match v with
+       | RxData d => read_data_loop SE SI tag f (d :: acc)
+       | RxResp rs => if r_cls rs =? 1
+                      then put_status SE (r_status rs);;; (if r_second rs =? tag then mret (concat (rev acc), rs) else read_data_loop SE SI tag f acc)
+                      else read_data_loop SE SI tag f acc
+       end) st = (r, s') -> nohang r /\ (avail s' <= avail st)%nat).
+    { intros v st _ Hst Hv. destruct v as [d|rs].
+      - eapply IH; eauto.
+      - destruct (r_cls rs =? 1).
+        + unfold mbind, put_status in Hv. destruct (r_second rs =? tag).
+          * injection Hv as <- <-. split; [exact I|apply le_n].
+          * eapply IH in Hv; [|unfold avail in *; cbn [set_status mb_env]; exact Hst]. exact Hv.
+        + eapply IH; eauto. }
+    unfold lift in H. destruct (i_read SI (mb_env SE s)) as [r0 e1] eqn:R.
+    pose proof (i_read_safe _ _ _ R) as [N0 L0].
+    destruct r0 as [v|x].
+    - assert (P : (availe e1 < availe (mb_env SE s))%nat) by (eapply s_read_progress; [exact R|left; eauto]).
+      apply Hh in H; [|auto|unfold avail in *; cbn [set_env mb_env]; lia].
+      destruct H as [N L]. split; [exact N|]. unfold avail in *. cbn [set_env mb_env] in L. lia.
+    - destruct x; try (injection H as <- <-; split; [first [exact I|exact N0]|unfold avail; cbn [set_env set_status mb_env]; exact L0]).
+      (* abort: one more read *)
+      assert (P : (availe e1 < availe (mb_env SE s))%nat) by (eapply s_read_progress; [exact R|right; reflexivity]).
+      unfold mbind in H. cbn [set_env mb_env] in H. destruct (i_read SI e1) as [r2 e2] eqn:R2.
+      pose proof (i_read_safe _ _ _ R2) as [N2 L2].
+      destruct r2 as [v|x2].
+      + apply Hh in H; [|auto|unfold avail in *; cbn [set_env mb_env]; lia].
+        destruct H as [N L]. split; [exact N|]. unfold avail in *. cbn [set_env mb_env] in L. lia.
+      + injection H as <- <-. split; [destruct x2; simpl in *; auto|unfold avail; cbn [set_env mb_env]; lia].
+  Qed.
+
+  Lemma read_data_safe fuel tag len : msafe fuel (read_data SE SI ce fuel tag len).
+  Proof.
+    unfold read_data. apply msafe_bind.
+    - intros s r s' Hs H. eapply read_data_loop_safe; eauto.
+    - intros dr. apply msafe_bind; [apply msafe_get|]. intros st.
+      destruct (_ && ce); [apply msafe_raise; discriminate|apply msafe_ret].
+  Qed.
+
+  Lemma write_chunks_safe ab : forall chunks, esafe (write_chunks SE SI ab chunks).
+  Proof.
+    induction chunks as [|c t IH]; [apply esafe_ret|]. cbn [write_chunks].
+    apply esafe_bind; [apply i_write_data_safe|]. intros _. exact IH.
+  Qed.
+
+  Lemma send_data_safe fuel ab tag chunks : msafe fuel (send_data SE SI ce ab tag chunks).
+  Proof.
+    assert (G : forall all_sent v, msafe fuel
+              (match v with
+               | RxData _ => mraise (XCrash K_ASSERT)
+               | RxResp rs => put_status SE (r_status rs);;;
+                   (if negb (r_status rs =? SC_SUCCESS) then if ce then mraise (XCmd (r_status rs)) else mret false else mret all_sent)
+               end)).
+    { intros all_sent [d|rs]; [apply msafe_raise; discriminate|].
+      apply msafe_bind; [apply msafe_put|]. intros _.
+      destruct (negb _); [destruct ce; [apply msafe_raise; discriminate|apply msafe_ret]|apply msafe_ret]. }
+    assert (X : forall all_sent x, x <> XHang -> msafe fuel
+              (match x with
+               | XTimeout => put_status SE SC_NO_RESPONSE;;; mraise XConn
+               | _ => if is_spsdk_error x
+                      then if negb (tag =? CT_NO_COMMAND)
+                           then v <- lift SE (i_read SI);;
+                                match v with
+                                | RxData _ => mraise (XCrash K_ASSERT)
+                                | RxResp rs => put_status SE (r_status rs);;;
+                                    (if negb (r_status rs =? SC_SUCCESS) then if ce then mraise (XCmd (r_status rs)) else mret false else mret all_sent)
+                                end
+                           else put_status SE SC_SENDING_OPERATION_CONDITION_ERROR;;; mret all_sent
+                      else mraise x
+               end)).
+    { intros all_sent x Hx.
+      assert (T : msafe fuel (put_status SE SC_NO_RESPONSE;;; @mraise _ bool XConn))
+        by (apply msafe_bind; [apply msafe_put|intros; apply msafe_raise; discriminate]).
+      assert (Rd : msafe fuel (v <- lift SE (i_read SI);;
+                                match v with
+                                | RxData _ => mraise (XCrash K_ASSERT)
+                                | RxResp rs => put_status SE (r_status rs);;;
+                                    (if negb (r_status rs =? SC_SUCCESS) then if ce then mraise (XCmd (r_status rs)) else mret false else mret all_sent)
+                                end))
+        by (apply msafe_bind; [apply msafe_lift, i_read_safe|intros v; apply G]).
+      assert (Se : msafe fuel (put_status SE SC_SENDING_OPERATION_CONDITION_ERROR;;; mret all_sent))
+        by (apply msafe_bind; [apply msafe_put|intros; apply msafe_ret]).
+      destruct x; cbn [is_spsdk_error]; try exact T; try (destruct (negb (tag =? CT_NO_COMMAND)); [exact Rd|exact Se]);
+        try (apply msafe_raise; assumption). }
+    intros s r s' Hs H. unfold send_data in H.
+    destruct (lift SE (write_chunks SE SI ab chunks) s) as [r1 s1] eqn:W.
+    pose proof (msafe_lift fuel _ (write_chunks_safe ab chunks) _ _ _ Hs W) as [N1 L1].
+    destruct r1 as [[]|x].
+    - destruct (negb (tag =? CT_NO_COMMAND)).
+      + destruct (lift SE (i_read SI) s1) as [r2 s2] eqn:R2.
+        assert (Hs1 : (avail s1 < fuel)%nat) by lia.
+        pose proof (msafe_lift fuel _ i_read_safe _ _ _ Hs1 R2) as [N2 L2].
+        destruct r2 as [v|x].
+        * apply (G true v) in H; [|lia]. destruct H; split; [assumption|lia].
+        * apply (X true x) in H; [|destruct x; simpl in *; auto; discriminate|lia]. destruct H; split; [assumption|lia].
+      + injection H as <- <-. split; [exact I|exact L1].
+    - apply (X false x) in H; [|destruct x; simpl in *; auto; discriminate|lia]. destruct H; split; [assumption|lia].
+  Qed.
+End Terminates2.
+
+Section Terminates3.
+  Notation SE := (senv unit).
+  Notation SI := (serial_iface unit null_recv).
+  Variable ce : bool.
+  Variable fuel : nat.
+
+  Ltac safe_step :=
+    first [ apply msafe_ret | apply msafe_put | apply msafe_get | apply process_cmd_safe | apply read_data_safe
+          | apply send_data_safe | (apply msafe_raise; discriminate) ].
+
+  Lemma get_property_safe tag index : msafe fuel (get_property SE SI ce tag index).
+  Proof.
+    unfold get_property. apply msafe_bind; [safe_step|]. intros rs.
+    destruct (r_status rs =? SC_SUCCESS); [destruct (r_cls rs =? 2)|]; safe_step.
+  Qed.
+  Lemma get_mps_safe : msafe fuel (get_max_packet_size SE SI ce).
+  Proof.
+    intros s r s' Hs H. unfold get_max_packet_size in H. destruct (mb_mps SE s).
+    - injection H as <- <-. split; [exact I|apply le_n].
+    - destruct (get_property SE SI ce PT_MAX_PACKET_SIZE 0 s) as [r0 s1] eqn:G.
+      destruct (get_property_safe _ _ _ _ _ Hs G) as [Nh L].
+      assert (U : forall v : N, nohang (ROk v) /\ (avail (set_mps SE s1 v) <= avail s)%nat) by (intros; split; [exact I|exact L]).
+      destruct r0 as [[[|v t]|]|x]; try (injection H as <- <-; first [apply U | split; [exact I|exact L]]).
+      destruct (is_mcuboot_error x); injection H as <- <-; [apply U|split; [destruct x; simpl in *; auto|exact L]].
+  Qed.
+  Lemma split_data_safe data : msafe fuel (split_data SE SI ce data).
+  Proof.
+    unfold split_data. destruct NEED_DATA_SPLIT; [|safe_step].
+    apply msafe_bind; [apply get_mps_safe|]. intros m. destruct (m =? 0); safe_step.
+  Qed.
+  Lemma simple_safe p : msafe fuel (simple SE SI ce p).
+  Proof. unfold simple. apply msafe_bind; [safe_step|]. intros; safe_step. Qed.
+  Lemma cmd_data_out_safe ab p data : msafe fuel (cmd_data_out SE SI ce ab p data).
+  Proof.
+    unfold cmd_data_out. apply msafe_bind; [apply split_data_safe|]. intros ch.
+    apply msafe_bind; [safe_step|]. intros rs. destruct (is_success rs); [|safe_step].
+    apply msafe_bind; [safe_step|]. intros; safe_step.
+  Qed.
+  Lemma cmd_data_in_safe p cls : msafe fuel (cmd_data_in SE SI ce fuel p cls).
+  Proof.
+    unfold cmd_data_in. apply msafe_bind; [safe_step|]. intros rs. destruct (is_success rs); [|safe_step].
+    destruct (r_cls rs =? cls); [|safe_step]. apply msafe_bind; [safe_step|]. intros; safe_step.
+  Qed.
+  Lemma read_memory_safe a l m fast : msafe fuel (read_memory SE SI ce fuel a l m fast).
+  Proof. unfold read_memory. cbn [i_usb serial_iface andb]. apply cmd_data_in_safe. Qed.
+  Lemma efuse_read_once_safe index : msafe fuel (efuse_read_once SE SI ce index).
+  Proof.
+    unfold efuse_read_once. apply msafe_bind; [safe_step|]. intros rs. destruct (is_success rs); [|safe_step].
+    destruct (r_cls rs =? 4); [|safe_step]. destruct (r_values rs); safe_step.
+  Qed.
+  Lemma efuse_program_once_safe index value verify : msafe fuel (efuse_program_once SE SI ce index value verify).
+  Proof.
+    unfold efuse_program_once. apply msafe_bind; [safe_step|]. intros rs. destruct (negb (is_success rs)); [safe_step|].
+    destruct verify; [|safe_step]. apply msafe_bind; [apply efuse_read_once_safe|]. intros rv.
+    destruct rv; try safe_step. destruct (N.land n value =? value); [safe_step|].
+    apply msafe_bind; [safe_step|]. intros; safe_step.
+  Qed.
+  Lemma flash_read_once_safe index count : msafe fuel (flash_read_once SE SI ce index count).
+  Proof.
+    unfold flash_read_once. destruct (negb _); [safe_step|]. apply msafe_bind; [safe_step|]. intros rs.
+    destruct (is_success rs); [destruct (r_cls rs =? 4)|]; safe_step.
+  Qed.
+  Lemma flash_program_once_safe index data : msafe fuel (flash_program_once SE SI ce index data).
+  Proof. unfold flash_program_once. destruct (negb _); [safe_step|apply simple_safe]. Qed.
+  Lemma flash_security_disable_safe key : msafe fuel (flash_security_disable SE SI ce key).
+  Proof. unfold flash_security_disable. destruct (negb _); [safe_step|apply simple_safe]. Qed.
+  Lemma load_image_safe data : msafe fuel (load_image SE SI ce data).
+  Proof.
+    unfold load_image. apply msafe_bind; [apply split_data_safe|]. intros ch.
+    apply msafe_bind; [safe_step|]. intros _. apply msafe_bind; [safe_step|]. intros; safe_step.
+  Qed.
+
+  Ltac api_leaf :=
+    first [ apply simple_safe | apply read_memory_safe | apply cmd_data_out_safe | apply cmd_data_in_safe
+          | apply flash_security_disable_safe | apply efuse_program_once_safe | apply efuse_read_once_safe
+          | apply flash_read_once_safe | apply flash_program_once_safe | apply load_image_safe
+          | (apply msafe_bind; [apply get_property_safe|intros v; destruct v; safe_step])
+          | (match goal with |- msafe _ (if ?b then _ else _) => destruct b end; [safe_step|apply cmd_data_in_safe])
+          | safe_step ].
+
+  Lemma api_safe c : msafe fuel (api SE SI ce fuel c).
+  Proof.
+    destruct c as [op a d]. unfold api.
+    destruct op as [|p]; [api_leaf|].
+    do 7 (try (destruct p as [p|p|])); api_leaf.
+  Qed.
+
+  Lemma session_safe : forall calls s rs s', (avail s < fuel)%nat -> session SE SI ce fuel calls s = (rs, s') ->
+    Forall (fun o => nohang (fst o)) rs.
+  Proof.
+    induction calls as [|c t IH]; intros s rs s' Hs H.
+    - injection H as <- <-. constructor.
+    - cbn [session] in H. destruct (api SE SI ce fuel c s) as [r s1] eqn:A.
+      destruct (api_safe c _ _ _ Hs A) as [N L].
+      destruct (session SE SI ce fuel t s1) as [rs1 s2] eqn:S. injection H as <- <-.
+      constructor; [exact N|]. eapply IH; [|exact S]. lia.
+  Qed.
+End Terminates3.
+
+(* HOST_TERMINATES: for EVERY device-to-host byte stream and every call list, with the fuel the check gives the model
+   (two more than the length of the stream) no call ends by exhausting a loop's fuel: every receive loop of the host stops
+   after at most one iteration per byte the link delivered *)
+Lemma host_terminates_lemma (ce : bool) (mps : option N) (stream : list N) (calls : list value) :
+  Forall (fun o => nohang (fst o)) (fst (run_serial null_recv (S (S (length stream))) ce mps tt stream calls)).
+Proof.
+  unfold run_serial.
+  destruct (session _ _ _ _ _ _) as [rs s'] eqn:S. cbn [fst].
+  eapply session_safe; [|exact S]. unfold avail, availe. cbn [mb_env se_in]. lia.
+Qed.
